@@ -304,6 +304,7 @@ func walkHelper
   ensures [halt] whalt() <==> (result0 == WalkStop || result1 != nil)
   ensures [status] !whalt() ==> (result0 == WalkContinue && result1 == nil)
   ensures [error] result1 != nil ==> result1 == werr(wlen() - 1)
+  ensures [surfaces] werr(wlen() - 1) != nil ==> result1 == werr(wlen() - 1)
   ensures [leave] !whalt() ==> (wlen() >= old(wlen()) + 2 && wnode(wlen() - 1) == n && !wenter(wlen() - 1))
   ensures [skip] (!whalt() && wstat(old(wlen())) == WalkSkipChildren) ==> wlen() == old(wlen()) + 2
   ensures [leaf] (!whalt() && klen(n) == 0) ==> wlen() == old(wlen()) + 2
@@ -325,6 +326,7 @@ func Walk
   ensures [enter] wlen() > old(wlen()) && wnode(old(wlen())) == n && wenter(old(wlen()))
   ensures [kept] wlogKept()
   ensures [error] result != nil ==> (whalt() && result == werr(wlen() - 1))
+  ensures [surfaces] werr(wlen() - 1) != nil ==> result == werr(wlen() - 1)
   ensures [complete] !whalt() ==> (result == nil && wnode(wlen() - 1) == n && !wenter(wlen() - 1))
   modifies wlen, wnode, wenter, wstat, werr, whalt
 
